@@ -258,11 +258,21 @@ pub proof fn lemma_fp9_mont_div(z: int, zl: int, tl: int, pp: int, pv: int, r: i
     let k1 = z / r;
     let k2 = (zl * pp) / r;
     let k3 = (pv * pp + 1) / r;
-    assert(z == k1 * r + zl) by(nonlinear_arith) requires r > 0, zl == z % r, k1 == z / r;
-    assert(zl * pp == k2 * r + tl) by(nonlinear_arith) requires r > 0, tl == (zl * pp) % r, k2 == (zl * pp) / r;
-    assert(pv * pp + 1 == k3 * r) by(nonlinear_arith) requires r > 0, (pv * pp + 1) % r == 0, k3 == (pv * pp + 1) / r;
-    assert(z + tl * pv == (k1 - k2 * pv + zl * k3) * r) by(nonlinear_arith)
-        requires z == k1 * r + zl, zl * pp == k2 * r + tl, pv * pp + 1 == k3 * r;
+    lemma_fundamental_div_mod(z, r);
+    lemma_fundamental_div_mod(zl * pp, r);
+    lemma_fundamental_div_mod(pv * pp + 1, r);
+    lemma_mul_is_commutative(r, k1); lemma_mul_is_commutative(r, k2); lemma_mul_is_commutative(r, k3);
+    assert(z == k1 * r + zl);
+    assert(zl * pp == k2 * r + tl);
+    assert(pv * pp + 1 == k3 * r);
+    let zp = zl * pp;
+    let vp = pv * pp;
+    // tl * pv == (zl*pp - k2*r) * pv == zl * (pv*pp) - (k2*pv) * r
+    assert(tl * pv == zl * vp - (k2 * pv) * r) by(nonlinear_arith) requires tl == zp - k2 * r, zp == zl * pp, vp == pv * pp;
+    // zl * (pv*pp) == zl * (k3*r - 1)
+    assert(zl * vp == (zl * k3) * r - zl) by(nonlinear_arith) requires vp == k3 * r - 1;
+    assert(k1 * r + (zl * k3) * r - (k2 * pv) * r == (k1 - k2 * pv + zl * k3) * r) by(nonlinear_arith);
+    assert(z + tl * pv == (k1 - k2 * pv + zl * k3) * r);
     lemma_mod_multiples_basic(k1 - k2 * pv + zl * k3, r);
 }
 // the quotient is below 2p
@@ -307,6 +317,11 @@ pub proof fn lemma_fp9_from_mont_post(a: int, res: int)
     lemma_fev9_cong(res * r256(), fev9(a) * r256());
     lemma_fp9_small(res, P9()); lemma_fp9_small(fev9(a), P9());
 }
+// ---------------------------------------------------------------- one-coefficient vectors (the trait contract speaks about Seq<int>)
+pub proof fn lemma_fp9_seq1(a: int, b: int) ensures (seq![a] == seq![b]) == (a == b), seq![a][0] == a, seq![b][0] == b
+{
+    if seq![a] == seq![b] { assert(seq![a][0] == seq![b][0]); }
+}
 // ---------------------------------------------------------------- zero, halving
 pub proof fn lemma_fp9_zero(a: Seq<u64>) requires canon9(a) ensures (fe9(a) == 0) == (val4(a) == 0)
 {
@@ -324,6 +339,23 @@ pub proof fn lemma_fp9_shr1(x: u64, y: u64)
     assert(n == (x >> 1) + (y & 1) * 0x8000_0000_0000_0000 && (x >> 1) + (y & 1) * 0x8000_0000_0000_0000 <= 0xffff_ffff_ffff_ffff
         && x == 2 * (x >> 1) + (x & 1) && (x & 1) <= 1 && (y & 1) <= 1 && (x >> 1) <= 0x7fff_ffff_ffff_ffff) by(bit_vector)
         requires n == (x >> 1) | ((y & 1) << 63);
+}
+// the 256-bit right shift by one across four limbs, with c shifted in on top
+pub proof fn lemma_fp9_shr256(a: Seq<u64>, c: u64, n: Seq<u64>)
+    requires a.len() == 4, n.len() == 4, c <= 1,
+        n[0] == (a[0] >> 1) | ((a[1] & 1) << 63), n[1] == (a[1] >> 1) | ((a[2] & 1) << 63),
+        n[2] == (a[2] >> 1) | ((a[3] & 1) << 63), n[3] == (a[3] >> 1) | ((c & 1) << 63),
+    ensures 2 * val4(n) == val4(a) - (a[0] & 1) as int + (if c == 1 { r256() } else { 0 })
+{
+    let a0 = a[0]; let a1 = a[1]; let a2 = a[2]; let a3 = a[3];
+    lemma_fp9_shr1(a0, a1); lemma_fp9_shr1(a1, a2); lemma_fp9_shr1(a2, a3); lemma_fp9_shr1(a3, c);
+    assert(c & 1 == c) by(bit_vector) requires c <= 1;
+    let b0 = (a0 & 1) as int; let b1 = (a1 & 1) as int; let b2 = (a2 & 1) as int; let b3 = (a3 & 1) as int; let b4 = c as int;
+    let n0 = n[0] as int; let n1 = n[1] as int; let n2 = n[2] as int; let n3 = n[3] as int;
+    assert(2 * n0 == a0 as int - b0 + 0x1_0000_0000_0000_0000int * b1);
+    assert(2 * n1 == a1 as int - b1 + 0x1_0000_0000_0000_0000int * b2);
+    assert(2 * n2 == a2 as int - b2 + 0x1_0000_0000_0000_0000int * b3);
+    assert(2 * n3 == a3 as int - b3 + 0x1_0000_0000_0000_0000int * b4);
 }
 // the value that is shifted (x when x is even, x + p when x is odd) is even: the low limb of it has low bit 0
 pub proof fn lemma_fp9_div2_parity(x: Seq<u64>, p: Seq<u64>, s: Seq<u64>, c: bool, odd: bool)
@@ -448,10 +480,13 @@ fn fp_pow(a: &Fp, e: &U256) -> (r: Fp)
                 fe9(r@) == pow_mod(fe9(a@), pre, P9()),
         {
             let ghost wb = w;
+            let ghost f0 = fe9(r@);
             r = r.fp_sqr();
             let ghost fsq = fe9(r@);
+            proof { lemma_fp9_seq1(f0, 0); lemma_fp9_seq1(fsq, (f0 * f0) % P9()); }
             if w & 0x8000000000000000 != 0 {
                 r = r.fp_mul(a);
+                proof { lemma_fp9_seq1(fsq, fe9(a@)); lemma_fp9_seq1(fe9(r@), (fsq * fe9(a@)) % P9()); }
             }
             w <<= 1;
             proof {
@@ -609,8 +644,7 @@ impl FieldElement for Fp {
         proof {
             lemma_fp9_zero(self@);
             lemma_val4_zero(self@);
-            assert(seq![fe9(self@)][0] == fe9(self@));
-            assert(seq![0int][0] == 0);
+            lemma_fp9_seq1(fe9(self@), 0);
         }
         self == &SM9_ZERO
     }
@@ -677,7 +711,7 @@ impl FieldElement for Fp {
     }
 
     fn fp_neg(&self) -> Self {
-        proof { lemma_fp9_consts(); lemma_params9(); lemma_val4_bounds(self@); lemma_fp9_zero(self@); }
+        proof { lemma_fp9_consts(); lemma_params9(); lemma_val4_bounds(self@); lemma_fp9_zero(self@); lemma_fp9_seq1(fe9(self@), 0); }
         if self.is_zero() {
             proof { lemma_fp9_neg_post(val4(self@), val4(self@)); }
             self.clone()
@@ -690,7 +724,7 @@ impl FieldElement for Fp {
     fn fp_div2(&self) -> Self {
         let mut r = self.clone();
         let mut c = 0;
-        proof { lemma_fp9_consts(); lemma_params9(); lemma_val4_bounds(self@); }
+        proof { lemma_fp9_consts(); lemma_val4_bounds(self@); }
         if r[0] & 0x01 == 1 {
             let (sum, carry) = u256_add(self, &SM9_P);
             c = carry as u64;
@@ -702,26 +736,23 @@ impl FieldElement for Fp {
             r[3] = self[3];
         }
         let ghost r0 = r@;
-        let ghost tt = val4(r0) + (if c == 1 { r256() } else { 0 });
+        let ghost odd = (self@[0] & 1) == 1;
         proof {
-            let x0 = self@[0]; let p0 = SM9_P@[0]; let s0 = r0[0];
+            let x0 = self@[0];
             assert(x0 & 0x01 == 1 || x0 & 0x01 == 0) by(bit_vector);
-            assert(x0 as int == 2 * ((x0 >> 1) as int) + (x0 & 1) as int) by(bit_vector);
-            assert(s0 as int == 2 * ((s0 >> 1) as int) + (s0 & 1) as int && (s0 & 1) <= 1) by(bit_vector);
-            assert(p0 == 0xe56f9b27e351457d);
-            lemma_val4_bounds(r0);
-            lemma_fp9_div2_parity(self@, SM9_P@, r0, c == 1, self@[0] & 0x01 == 1);
+            assert(SM9_P@[0] & 1 == 1) by(compute);
+            assert(!odd ==> r0 =~= self@);
+            lemma_fp9_div2_parity(self@, SM9_P@, r0, c == 1, odd);
         }
         r[0] = (r[0] >> 1) | ((r[1] & 1) << 63);
         r[1] = (r[1] >> 1) | ((r[2] & 1) << 63);
         r[2] = (r[2] >> 1) | ((r[3] & 1) << 63);
         r[3] = (r[3] >> 1) | ((c & 1) << 63);
         proof {
-            let a0 = r0[0]; let a1 = r0[1]; let a2 = r0[2]; let a3 = r0[3];
-            lemma_fp9_shr1(a0, a1); lemma_fp9_shr1(a1, a2); lemma_fp9_shr1(a2, a3); lemma_fp9_shr1(a3, c);
-            assert(c & 1 == c) by(bit_vector) requires c == 0 || c == 1;
-            assert(2 * val4(r@) == tt);
+            lemma_fp9_shr256(r0, c, r@);
+            let tt = val4(r0) + (if c == 1 { r256() } else { 0 });
             lemma_fp9_div2_post(val4(self@), val4(r@), tt);
+            lemma_fp9_seq1(fe9(r@), 0);
         }
         r
     }
